@@ -892,7 +892,12 @@ pub fn suite_reopen(ctx: &mut Ctx, seed: u64, thorough: bool) {
                     }
                 };
                 let hfd = handle.as_fd().as_raw_fd();
-                let forced = unsafe { libc::dup3(hfd, n, libc::O_CLOEXEC) };
+                // (dup3 refuses oldfd == newfd: when the handle already has the wanted number, go through a copy)
+                let src = if hfd == n { unsafe { libc::fcntl(hfd, libc::F_DUPFD_CLOEXEC, 1040) } } else { hfd };
+                let forced = unsafe { libc::dup3(src, n, libc::O_CLOEXEC) };
+                if src != hfd {
+                    unsafe { libc::close(src) };
+                }
                 assert_eq!(forced, n, "dup3 to {n}");
                 id += 1;
                 let mut s = format!(
